@@ -42,12 +42,16 @@ def main():
         for pf in sorted(glob.glob(os.path.join(benign, "C*", "[R-Z]*", "patch.diff"))):
             d = os.path.dirname(pf)
             jobs.append(("benign", d[len(benign) + 1:], pf, d.split("/")[-2]))
+        # the committed corpus layout: benign/Cxx-Rn/patch.diff
+        for pf in sorted(glob.glob(os.path.join(benign, "C[0-9][0-9]-[R-Z]*", "patch.diff"))):
+            d = os.path.dirname(pf)
+            jobs.append(("benign", d[len(benign) + 1:], pf, os.path.basename(d)[:3]))
     missed, alarms, nb, ns = [], [], 0, 0
     def work(j):
         kind, name, pf, prop = j
         props = PROPS if (allp and kind == "benign") else [prop]
         return j, run(binp, pf, props)
-    with ThreadPoolExecutor(max_workers=8) as ex:
+    with ThreadPoolExecutor(max_workers=12) as ex:
         for j, (res, err) in ex.map(work, jobs):
             kind, name, pf, prop = j
             if err:
